@@ -255,7 +255,14 @@ def run_property(mod, tier, seed, verbose=False):
                         violations.append((st, c, o, key, msg))
                         if len(violations) > 50:
                             break
-                e = st.encode(c, o)
+                try:
+                    e = st.encode(c, o)
+                except Exception as ex:      # noqa  an observation the encoder cannot express (e.g. the implementation put objects
+                    # where the model has plain data): the case cannot be compared; that is a broken tie, not a crash
+                    e = None
+                    if not any(w.startswith("corr:%s:%s (encoding" % (prop_id, st.name)) for (w, _) in no_input_found):
+                        no_input_found.append(("corr:%s:%s (encoding of an observation failed)" % (prop_id, st.name),
+                                               "%s: %s on case %r" % (type(ex).__name__, ex, st.to_replay(c))))
                 if e is not None:
                     encoded.append(e)
                     enc_idx.append(i)
